@@ -72,15 +72,35 @@
    other accounts may be shortened, swapped or hidden; true without --mapping and --remap,
    C03_shows_account_plain) and passes the --account/--commodity filters; the window is not empty and col is a period end.
 
+   THE VERDICT OF THE RUNTIME CHECK HOLDS OF THE MODEL (last part of this file; Proofs/MarkToMarketSteps.v):
+   the check accepts a valued cell when ValuationSpec.within_bound observed expected n with
+   (expected, n) the column's entry of ValuationSpec.mtm_row, n = step_bound dl a W E = bookings of
+   the account in the window + (dates of the journal in the window) * (held commodities) + 1.
+   C03_model_meets_spec: for every configuration with a valuation commodity and every journal on
+   which the balance command succeeds, every asset/liability account shown as itself and every
+   column, mtm_row exists, has one entry per column, and the model's row lies within that
+   allowance of the expected value (as rationals, and as the boolean within_bound:
+   C03_within_bound_value).  The count behind it (C03_windowed_tight, row_steps_tight): Valuate
+   skips a revaluation whose price difference is zero (C03_no_revaluation_without_price_change) and
+   ComputePrices carries the prices over a day without declarations, so a cell gains at most one
+   posting per booking and one per day that declares a price; the days --close touches at the
+   period starts carry nothing and never count (row_steps above charges them and every journal
+   day: 7 against the allowance 5 in the example below; the tight count is 4).
+   C03_step_bound_suffices: the tight count over the held commodities <= step_bound.
+
+   ROWS AGGREGATED BY --mapping / SWAPPED BY --remap (Proofs/MarkToMarketMapped.v, vocabulary
+   Spec/MarkToMarketMappedSpec.v): C03_windowed_mapped: a row b of asset/liability type, whatever
+   the mapping rules and --remap do, shows the sum over the accounts that land on it (lands_on:
+   remap, then the first matching rule; row_sources: the accounts with bookings in the journal that
+   land on b and pass --account, each once; C03_sources_of: the executable list sources_of is one)
+   of their mark-to-market changes, up to the sum of their step counts.  No shows_account condition;
+   an account shown as itself is the case srcs = [a].
+
    NOT PROVED (decided on every run by evaluating mtm_row / within_bound on the binary's output and
    by the byte-exact correspondence of the model):
    * the printed row: that the renderer's collapsed line of a valued row is the sum over the
      commodity keys of the node and the cumulative presentation over the columns (C02_row_cumulative
      gives the latter per key); value_cell here is the sum of the tree's cells;
-   * rows aggregated by --mapping / swapped by --remap (the sum over the accounts mapped onto a row;
-     accounts shown as themselves are covered whatever happens to the other accounts);
-   * the tighter step count Spec.ValuationSpec.step_bound (a revaluation only on days with a price
-     declaration); row_steps counts every journal day in the window;
    * that mtm_expected is Some whenever the run succeeds (C03_held_has_price gives it for the last
      day of the run). *)
 From Coq Require Import ZArith QArith Qabs List Bool.
@@ -500,6 +520,152 @@ Example C03_example_windowed_report :
     Qred (mv_cell dl exr_V exr_a exr_c col3 - mv_cell dl exr_V exr_a exr_c (W - 1)) = 4148148159 # 1000000000 /\
     cell_steps (exr_cfg true) dl part exr_a exr_c col3 = 7%Z /\
     ValuationSpec.mtm_expected dl exr_V exr_a W col3 = Some (mkDec 4148148159 (-9))
+  | _, _ => False
+  end.
+Proof. vm_compute. repeat split; discriminate. Qed.
+
+(* ================================================================== the verdict of the runtime check *)
+(* Vocabulary: Spec/ValuationSpec.v mtm_row, mtm_expected, step_bound, within_bound (what
+   Extract/drv/drv_c03.ml evaluates on the binary's output); Proofs/MarkToMarketSteps.v
+   cell_steps_tight, row_steps_tight (bookings of the cell in the window + dates of the journal in
+   the window, per commodity other than V; nothing for --close). *)
+From Knut Require Import Proofs.MarkToMarketSteps.
+
+(* no price moved between two days: Valuate books no revaluation at all *)
+Theorem C03_no_revaluation_without_price_change : forall v date p pos ts,
+  val_adjustments v date p p pos = ROk ts -> ts = [].
+Proof. exact adj_same. Qed.
+Print Assumptions C03_no_revaluation_without_price_change.
+
+(* THE WINDOW, the whole row, with the count that ignores days without a price declaration and the
+   days --close adds *)
+Theorem C03_windowed_tight : forall cfg ds r part V,
+  bc_valuation cfg = Some V ->
+  balance_report cfg ds = COk (r, part) ->
+  exists dl,
+    parse_directives ds = MOk dl /\
+    new_partition (clip (mkPeriod (bc_from cfg) (bc_to cfg)) (journal_period dl)) (bc_interval cfg) (bc_last cfg) = POk part /\
+    (postings_syntactic dl ->
+     forall a col coms, account_ok a = true -> is_AL a = true -> shows_account cfg a ->
+       (forall c, In c coms -> cfg_where cfg a c = true) ->
+       (p_start (span part) <= p_end (span part))%Z -> In col (end_dates part) ->
+       Qabs (row_value a part col r coms
+             - (mv_row dl V a col coms - mv_row dl V a (p_start (span part) - 1) coms))
+         <= inject_Z (row_steps_tight dl V a (p_start (span part)) col coms) * (1 # 100000000)).
+Proof. exact windowed_row_tight. Qed.
+Print Assumptions C03_windowed_tight.
+
+(* that count, over the commodities the account holds, is within the allowance of the check *)
+Theorem C03_step_bound_suffices : forall dl V a W E,
+  (row_steps_tight dl V a W E (ValuationSpec.held_commodities (flat_postings dl) a) <= ValuationSpec.step_bound dl a W E)%Z.
+Proof. exact row_steps_step_bound. Qed.
+Print Assumptions C03_step_bound_suffices.
+
+(* the boolean the check evaluates is the inequality between the rational values *)
+Theorem C03_within_bound_value : forall o e n,
+  ValuationSpec.within_bound o e n = true <-> Qabs (dvalue o - dvalue e) <= inject_Z n * (1 # 100000000).
+Proof. exact within_bound_value. Qed.
+Print Assumptions C03_within_bound_value.
+
+(* THE MODEL MEETS THE CHECK'S VERDICT: per column j of the report, with (Some e, n) the j-th entry
+   of mtm_row (expected value and allowance as the check computes them from the directives), the
+   row of the model's report is within n * 10^-8 of e; hence within_bound accepts every decimal
+   that carries the row's value.  Side conditions as in C03_windowed_expected. *)
+Theorem C03_model_meets_spec : forall cfg ds r part V,
+  bc_valuation cfg = Some V ->
+  balance_report cfg ds = COk (r, part) ->
+  exists dl,
+    parse_directives ds = MOk dl /\
+    (postings_syntactic dl ->
+     forall a, account_ok a = true -> is_AL a = true -> shows_account cfg a ->
+       (forall c, cfg_where cfg a c = true) ->
+       (p_start (span part) <= p_end (span part))%Z ->
+       exists exps,
+         ValuationSpec.mtm_row cfg dl a = Some exps /\ length exps = length (end_dates part) /\
+         forall j col e n, nth_error (end_dates part) j = Some col -> nth_error exps j = Some (Some e, n) ->
+           let coms := ValuationSpec.held_commodities (flat_postings dl) a in
+           Qabs (row_value a part col r coms - dvalue e) <= inject_Z n * (1 # 100000000) /\
+           forall o, dvalue o == row_value a part col r coms -> ValuationSpec.within_bound o e n = true).
+Proof. exact model_meets_spec. Qed.
+Print Assumptions C03_model_meets_spec.
+
+(* The hypotheses are satisfiable and the step counts differ as described: the valued, windowed
+   report with --close of C03_example_windowed_report.  mtm_row gives the allowances 2, 4, 5 for the
+   three columns; the tight count of the model is 1, 3, 4; row_steps of C03_windowed charges 4, 6, 7
+   (a revaluation on every journal day and on the three period starts), which did not imply the
+   check's allowance.  The rows the model shows lie within the allowance. *)
+Example C03_example_model_meets_spec :
+  match balance_report (exr_cfg true) exr_journal, parse_directives exr_journal with
+  | COk (r, part), MOk dl =>
+    let coms := ValuationSpec.held_commodities (flat_postings dl) exr_a in
+    let W := p_start (span part) in
+    postings_syntactic_b dl = true /\ account_ok exr_a = true /\ is_AL exr_a = true /\
+    ValuationSpec.mtm_row (exr_cfg true) dl exr_a
+      = Some [(Some (mkDec 1148148180 (-9)), 2%Z); (Some (mkDec 1748148183 (-9)), 4%Z); (Some (mkDec 4148148159 (-9)), 5%Z)] /\
+    map (fun col => row_steps_tight dl exr_V exr_a W col coms) (end_dates part) = [1; 3; 4]%Z /\
+    map (fun col => row_steps (exr_cfg true) dl part exr_V exr_a col coms) (end_dates part) = [4; 6; 7]%Z /\
+    map (fun col => Qred (row_value exr_a part col r coms)) (end_dates part)
+      = [57407409 # 50000000; 87407409 # 50000000; 82962963 # 20000000] /\
+    ValuationSpec.within_bound (mkDec 414814815 (-8)) (mkDec 4148148159 (-9)) 5 = true
+  | _, _ => False
+  end.
+Proof. vm_compute. repeat split; discriminate. Qed.
+
+(* ================================================================== rows aggregated by --mapping / --remap *)
+From Knut Require Import Spec.MarkToMarketMappedSpec Proofs.MarkToMarketMapped.
+Open Scope Q_scope.
+
+(* THE WINDOW for any row of asset/liability type: with srcs the accounts of the journal that remap
+   and the mapping rules send onto b (and that pass --account), over any list of commodities that
+   pass --commodity:
+     | row b  -  sum_{a in srcs} (sum_c Q_col(a,c) p_col(c) - sum_c Q_s(a,c) p_s(c)) |  <=  sum_{a in srcs} n_steps(a) * 10^-8
+   n_steps(a) the tight count of C03_windowed_tight.  Side conditions: the parser's guarantee on
+   account names, b syntactically valid, the window is not empty, col is a period end. *)
+Theorem C03_windowed_mapped : forall cfg ds r part V,
+  bc_valuation cfg = Some V ->
+  balance_report cfg ds = COk (r, part) ->
+  exists dl,
+    parse_directives ds = MOk dl /\
+    new_partition (clip (mkPeriod (bc_from cfg) (bc_to cfg)) (journal_period dl)) (bc_interval cfg) (bc_last cfg) = POk part /\
+    (postings_syntactic dl ->
+     forall b srcs col coms, account_ok b = true -> is_AL b = true -> row_sources cfg dl b srcs ->
+       (forall c, In c coms -> com_pass cfg c = true) ->
+       (p_start (span part) <= p_end (span part))%Z -> In col (end_dates part) ->
+       Qabs (row_value b part col r coms
+             - (mv_row_sum dl V srcs col coms - mv_row_sum dl V srcs (p_start (span part) - 1) coms))
+         <= inject_Z (steps_sum dl V srcs (p_start (span part)) col coms) * (1 # 100000000)).
+Proof. exact windowed_row_mapped. Qed.
+Print Assumptions C03_windowed_mapped.
+
+(* the aggregated accounts exist as an executable list *)
+Theorem C03_sources_of : forall cfg dl b, postings_syntactic dl -> row_sources cfg dl b (sources_of cfg dl b).
+Proof. exact sources_of_spec. Qed.
+Print Assumptions C03_sources_of.
+
+(* remap and the mapping rules keep an account in its class: what lands on an asset/liability row is
+   an asset or a liability (so CloseAccounts and the Income mirrors never reach such a row) *)
+Theorem C03_lands_class : forall cfg b a,
+  account_ok a = true -> account_ok b = true -> lands_on cfg b a = true -> is_AL a = is_AL b.
+Proof. exact lands_class. Qed.
+Print Assumptions C03_lands_class.
+
+(* Both sides on a report with --mapping 2 and --close (Proofs/MarkToMarketMapped.v exm_journal):
+   Assets:B:X buys 1.5 A before the window, Assets:B:Y 0.3 A inside; both are shown on the row
+   Assets:B, which carries the numbers of C03_example_windowed_report; the accounts themselves have
+   no row. *)
+Example C03_example_mapped_row :
+  match balance_report exm_cfg exm_journal, parse_directives exm_journal with
+  | COk (r, part), MOk dl =>
+    let W := p_start (span part) in
+    let srcs := sources_of exm_cfg dl exm_b in
+    postings_syntactic_b dl = true /\ account_ok exm_b = true /\ is_AL exm_b = true /\
+    srcs = [exm_x; exm_y] /\ com_pass exm_cfg exr_c = true /\
+    map (fun col => Qred (row_value exm_b part col r [exr_c])) (end_dates part)
+      = [57407409 # 50000000; 87407409 # 50000000; 82962963 # 20000000] /\
+    map (fun col => Qred (mv_row_sum dl exr_V srcs col [exr_c] - mv_row_sum dl exr_V srcs (W - 1) [exr_c])) (end_dates part)
+      = [57407409 # 50000000; 1748148183 # 1000000000; 4148148159 # 1000000000] /\
+    map (fun col => steps_sum dl exr_V srcs W col [exr_c]) (end_dates part) = [2; 5; 7]%Z /\
+    map (fun col => Qred (row_value exm_x part col r [exr_c])) (end_dates part) = [0; 0; 0]
   | _, _ => False
   end.
 Proof. vm_compute. repeat split; discriminate. Qed.
